@@ -159,8 +159,12 @@ Definition store_parse (s : bytes) : option json :=
   | other => other
   end.
 
-(** ---- WAL: serde_json::to_string then serde_json::from_str ---- *)
-Definition wal_float (b : Z) : scalar :=
+(** ---- WAL: serde_json::to_string then serde_json::from_str ----
+    [wal_float_legacy]: serde_json WITHOUT float_roundtrip re-reads ryu's digits with [f64_from_parts]
+    (not correctly rounded).  With the feature (read from Cargo.toml into Gen/Params.v) the reader is
+    correctly rounded and ryu's shortest digits read back as the same double (the defining property of
+    shortest round-trip printing; assumed like Display/parse, tied by the value_wal probe). *)
+Definition wal_float_legacy (b : Z) : scalar :=
   if negb (f64_is_finite b) then SNull
   else
     let m := f64_mag b in
@@ -171,6 +175,9 @@ Definition wal_float (b : Z) : scalar :=
       | Some r => SFloat r
       | None => SNull                             (* unreachable for finite input *)
       end.
+Definition wal_float (b : Z) : scalar :=
+  if value_serde_float_roundtrip then (if f64_is_finite b then SFloat b else SNull)
+  else wal_float_legacy b.
 Definition wal_scalar (s : scalar) : scalar :=
   match s with
   | SFloat b => wal_float b
@@ -441,14 +448,14 @@ Definition string_retyped (s : bytes) : bool := negb (scalar_eqb (add_payload_fi
 (** an integer that a double cannot hold exactly *)
 Definition int_inexact_as_f64 (z : Z) : bool := negb (float_is_int (f64_of_int z) z).
 
-Definition float_wal_inexact (b : Z) : bool := negb (scalar_eqb (wal_float b) (SFloat b)).
+(** (fixed in 32b7370: the former class FloatWalReparsedInexact, floats changed by the WAL reader) *)
+Definition float_wal_inexact_legacy (b : Z) : bool := negb (scalar_eqb (wal_float_legacy b) (SFloat b)).
 
 Inductive known_class : Type :=
 | Utf8ReparsedOnRender
 | StringRetyped
 | NullStringBecomesEmpty
-| IntegerInFloatFieldRounded
-| FloatWalReparsedInexact.
+| IntegerInFloatFieldRounded.
 
 (** Does the input belong to the class?  (field type, layout, column present, stored value) *)
 Definition in_class (k : known_class) (t : ftype) (l : layout) (col_present : bool) (v : stored) : bool :=
@@ -468,13 +475,10 @@ Definition in_class (k : known_class) (t : ftype) (l : layout) (col_present : bo
       | PF64, Some (JI64 z) => int_inexact_as_f64 z
       | _, _ => false
       end
-  | FloatWalReparsedInexact =>
-      via_wal l && match v with Some (JF64 b) => float_wal_inexact b | _ => false end
   end.
 
 Definition all_classes : list known_class :=
-  [Utf8ReparsedOnRender; StringRetyped; NullStringBecomesEmpty; IntegerInFloatFieldRounded;
-   FloatWalReparsedInexact].
+  [Utf8ReparsedOnRender; StringRetyped; NullStringBecomesEmpty; IntegerInFloatFieldRounded].
 Definition known (t : ftype) (l : layout) (cp : bool) (v : stored) : bool :=
   existsb (fun k => in_class k t l cp v) all_classes.
 
@@ -574,10 +578,17 @@ Definition flow_row {A : Type} (d : A) (cols_schema cols_src : list bytes) (ret 
   let idx := projection cols_schema ret fields in
   combine (project_cols idx cols_schema) (project_row d idx (map ev cols_src)).
 
-(** the requested payload columns whose position depends on the HashSet order *)
-Definition order_dependent (filter_cols ret fields : list bytes) : list bytes :=
-  filter (fun f => negb (is_core f) && negb (mem_bytes f filter_cols)) (dedup (requested ret fields)).
-(** known class ReturnColumnsMislabelledInMemory: rows served by the memtable flow under a RETURN
-    list with at least two order-dependent columns *)
-Definition return_mislabel_possible (l : layout) (filter_cols ret fields : list bytes) : bool :=
-  in_memory l && (2 <=? Z.of_nat (length (order_dependent filter_cols ret fields))).
+(** The order in which the requested names are appended: the RETURN order when the code collects them
+    into a Vec ([value_return_order_stable], read from strategies.rs; fix f2ae870), otherwise the
+    iteration order [hash_order] of a HashSet, different on every call. *)
+Definition appended_order (ret fields hash_order : list bytes) : list bytes :=
+  if value_return_order_stable then requested ret fields else hash_order.
+Definition selection_columns_ret (filter_cols ret fields hash_order : list bytes) : list bytes :=
+  selection_columns filter_cols (appended_order ret fields hash_order).
+
+(** a row of the memtable flow under a RETURN list: the column list is computed twice, with whatever
+    HashSet orders [o1], [o2] the two calls would see *)
+Definition memtable_flow_row {A : Type} (d : A) (filter_cols ret fields o1 o2 : list bytes) (ev : bytes -> A)
+  : list (bytes * A) :=
+  flow_row d (selection_columns_ret filter_cols ret fields o1) (selection_columns_ret filter_cols ret fields o2)
+           (Some ret) fields ev.
